@@ -78,8 +78,8 @@ def printBody (r : Resource) (w : W) : W :=
   let w := copy w r.path
   let w := putc w 0x3E
   let w := r.attrs.foldl putAttr w
-  let w := if r.observable then copy w (str ";obs") else w
-  if r.oscoreOnly then copy w (str ";osc") else w
+  let w := if r.observable then copy w sObs else w
+  if r.oscoreOnly then copy w sOsc else w
 
 def finish (w : W) (oldOffset : Nat) : Status :=
   let outputLength := w.out.length % 2 ^ 32
@@ -170,28 +170,62 @@ def noFilter : FP := ⟨0, [], none, 0, false, false, false⟩
 def nameIs (q : Bytes) (n : Nat) (name : Bytes) : R Bool :=
   if n = name.length then memcmpEq q name name.length else R.ok false
 
+/-- the `for (rt_attributes = _rt_attributes; rt_attributes->s; rt_attributes++)` loop -/
+def isListAttrM (q : Bytes) (n : Nat) : List Bytes → R Bool
+  | [] => R.ok false
+  | a :: rest =>
+    match nameIs q n a with
+    | R.ok true => R.ok true
+    | R.ok false => isListAttrM q n rest
+    | R.rej => R.rej
+    | R.oob => R.oob
+
+/-- `len && p[0] == c` -/
+def firstIs (p : Bytes) (len : Nat) (c : UInt8) : R Bool :=
+  if len = 0 then R.ok false
+  else match rd p 0 with
+    | R.ok b => R.ok (b == c)
+    | R.rej => R.rej
+    | R.oob => R.oob
+
+/-- `len && p[len-1] == c` -/
+def lastIs (p : Bytes) (len : Nat) (c : UInt8) : R Bool :=
+  if len = 0 then R.ok false
+  else match rd p (len - 1) with
+    | R.ok b => R.ok (b == c)
+    | R.rej => R.rej
+    | R.oob => R.oob
+
 def parseFilter (qf : Option Bytes) : R FP :=
   match qf with
   | none => R.ok noFilter
   | some q =>
     let n := scanEq q
-    if n < q.length then do
-      let uri ← nameIs q n (str "href")
-      let isRt ← nameIs q n (str "rt")
-      let isIf ← if isRt then R.ok false else nameIs q n (str "if")
-      let isRel ← if isRt || isIf then R.ok false else nameIs q n (str "rel")
-      let sub := isRt || isIf || isRel
-      let p0 := q.drop (n + 1)
-      let l0 := q.length - (n + 1)
-      -- if (query_pattern.length && query_pattern.s[0] == '/' && (flags & MATCH_URI))
-      let c0 ← if l0 ≠ 0 then rd p0 0 else R.ok 0
-      let sl := l0 ≠ 0 && c0 == 0x2F && uri
-      let p1 := if sl then p0.drop 1 else p0
-      let l1 := if sl then l0 - 1 else l0
-      -- if (query_pattern.length && query_pattern.s[query_pattern.length-1] == '*')
-      let c1 ← if l1 ≠ 0 then rd p1 (l1 - 1) else R.ok 0
-      let st := l1 ≠ 0 && c1 == 0x2A
-      R.ok ⟨n, q, some p1, if st then l1 - 1 else l1, uri, st, sub⟩
+    if n < q.length then
+      match nameIs q n sHref with
+      | R.rej => R.rej
+      | R.oob => R.oob
+      | R.ok uri =>
+        match isListAttrM q n [sRt, sIf, sRel] with
+        | R.rej => R.rej
+        | R.oob => R.oob
+        | R.ok sub =>
+          -- query_pattern.s = query_filter->s + resource_param.length + 1
+          let p0 := q.drop (n + 1)
+          let l0 := q.length - (n + 1)
+          -- if (query_pattern.length && query_pattern.s[0] == '/' && (flags & MATCH_URI))
+          match firstIs p0 l0 0x2F with
+          | R.rej => R.rej
+          | R.oob => R.oob
+          | R.ok sl0 =>
+            let sl := sl0 && uri
+            let p1 := if sl then p0.drop 1 else p0
+            let l1 := if sl then l0 - 1 else l0
+            -- if (query_pattern.length && query_pattern.s[query_pattern.length-1] == '*')
+            match lastIs p1 l1 0x2A with
+            | R.rej => R.rej
+            | R.oob => R.oob
+            | R.ok st => R.ok ⟨n, q, some p1, if st then l1 - 1 else l1, uri, st, sub⟩
     else R.ok ⟨n, q, none, 0, false, false, false⟩
 
 /-- `coap_find_attr(r, &resource_param)` -/
@@ -206,6 +240,13 @@ def findAttrM (q : Bytes) (n : Nat) : List Attr → R (Option Attr)
       | R.oob => R.oob
     else findAttrM q n rest
 
+/-- `value->length >= 2 && value->s[0] == '"' && value->s[value->length - 1] == '"'` (left to right, short-circuit) -/
+def isQuoted (v : Bytes) : R Bool :=
+  if v.length < 2 then R.ok false
+  else match firstIs v v.length 0x22 with
+    | R.ok true => lastIs v v.length 0x22
+    | x => x
+
 /-- the `if (resource_param.length) { … continue; }` block: is the resource printed? -/
 def selectsM (fp : FP) (r : Resource) : R Bool :=
   if fp.paramLen = 0 then R.ok true
@@ -218,13 +259,13 @@ def selectsM (fp : FP) (r : Resource) : R Bool :=
     | R.ok (some a) =>
       match a.value with
       | none => R.ok false
-      | some v => do
-        -- if (value->length >= 2 && value->s[0] == '"' && value->s[value->length - 1] == '"')
-        let c0 ← if 2 ≤ v.length then rd v 0 else R.ok 0
-        let c1 ← if 2 ≤ v.length && c0 == 0x22 then rd v (v.length - 1) else R.ok 0
-        let quoted := 2 ≤ v.length && c0 == 0x22 && c1 == 0x22
-        if quoted then matchM (v.drop 1) (v.length - 2) fp.pat fp.patLen fp.pfx fp.sub
-        else matchM v v.length fp.pat fp.patLen fp.pfx fp.sub
+      | some v =>
+        match isQuoted v with
+        | R.oob => R.oob
+        | R.rej => R.rej
+        -- unquoted_val.length -= 2; unquoted_val.s += 1;
+        | R.ok true => matchM (v.drop 1) (v.length - 2) fp.pat fp.patLen fp.pfx fp.sub
+        | R.ok false => matchM v v.length fp.pat fp.patLen fp.pfx fp.sub
 
 /-! ### coap_print_wellknown_lkd -/
 
